@@ -11,7 +11,14 @@ def sh(cmd, cwd=None, check=True):
     if check and p.returncode:
         print(p.stdout); sys.exit("FAILED: " + cmd)
     return p.stdout
-print(sh("git merge --no-edit wip-%s" % ID, cwd="/verif")[-300:])
+out = sh("git merge --no-edit wip-%s" % ID, cwd="/verif", check=False)
+if "CONFLICT" in out:
+    sh("git rm -q --cached coq/_CoqProject", cwd="/verif", check=False)
+    left = sh("git diff --name-only --diff-filter=U", cwd="/verif").strip()
+    if left:
+        sys.exit("unresolved conflicts: " + left)
+    sh("git commit -qm \"Merge branch 'wip-%s'\"" % ID, cwd="/verif")
+print(out[-300:])
 base = sh("git merge-base main fix-%s" % ID, cwd="/repo").strip()
 commits = sh("git rev-list --reverse %s..fix-%s" % (base, ID), cwd="/repo").split()
 mapping = {}
